@@ -35,7 +35,7 @@ class Compute:
     def numOps(dump, op):
         """Compute the number of operations executed by this kernel """
         metric = "payload_" + op
-        if(metric in dump["Compute"].keys()):
+        if "Compute" in dump and metric in dump["Compute"].keys():
             return dump["Compute"][metric]
         else:
             return 0
